@@ -229,3 +229,56 @@ package silence
 //@   loop 1 invariant forall k string :: k in s.st ==> old(k in s.st) && s.st[k] == old(s.st[k])
 //@   loop 1 invariant s.vi == old(s.vi) && len(targetVi) <= rangeindex + 1 && rangeindex < len(s.vi)
 //@   assigns s.st[*], s.mi[*], s.vi, s.vi[*]
+
+// ---- C11: snapshot files (same protocol as the notification log).
+//@ func (*replaceFile).Close
+//@   props C11
+//@   nosafe
+//@   at call os.Rename assert [rename-after-sync-and-close] called("os.File).Sync") && ret("os.File).Sync") == nil && called("os.File).Close") && ret("os.File).Close") == nil
+//@   ensures [renamed-iff-ok] (result == nil) ==> called("os.Rename")
+//@   ensures [sync-first] called("os.File).Close") ==> called("os.File).Sync") && ret("os.File).Sync") == nil
+//@ func openReplace
+//@   props C11
+//@   nosafe
+//@   ensures [fresh-truncated-temp-file] result1 == nil ==> called("os.Create") && ret1("os.Create") == nil && result0 != nil && result0.File == ret("os.Create") && result0.filename == filename
+//@   ensures [target-untouched] !called("os.Rename") && !called("os.Remove")
+//@   ensures [error-means-nothing] result1 != nil ==> result0 == nil
+//@ func (*Silences).Maintenance$1
+//@   props C11
+//@   nosafe
+//@   at call replaceFile).Close assert [rename-only-complete-snapshot] called("Silences).Snapshot") && ret1("Silences).Snapshot") == nil
+//@   ensures [error-reported] called("Silences).Snapshot") && ret1("Silences).Snapshot") != nil ==> result1 != nil
+//@   noeffect Silences).GC Silences).Snapshot openReplace replaceFile).Close
+
+// C11: the on-disk form keeps the first matcher set in the legacy field as well; loading undoes it, upgrades
+// records written in the legacy form, and leaves multi-set silences as they were.
+//@ func prepareSilenceForMarshalling
+//@   props C11
+//@   assumes sil != nil && len(sil.MatcherSets) > 0 ==> sil.MatcherSets[0] != nil
+//@   ensures [sets-untouched] sil != nil ==> sil.MatcherSets == old(sil.MatcherSets)
+//@   ensures [legacy-mirror] sil != nil && len(sil.MatcherSets) > 0 ==> sil.Matchers == sil.MatcherSets[0].Matchers
+//@ func postprocessUnmarshalledSilence
+//@   props C11
+//@   requires sil != nil
+//@   ensures [legacy-cleared] len(sil.Matchers) == 0 && sil.Matchers == nil
+//@   ensures [multi-set-untouched] old(len(sil.MatcherSets)) > 0 ==> sil.MatcherSets == old(sil.MatcherSets)
+//@   ensures [legacy-upgraded] old(len(sil.MatcherSets)) == 0 && old(len(sil.Matchers)) > 0 ==> len(sil.MatcherSets) == 1 && sil.MatcherSets[0] != nil && sil.MatcherSets[0].Matchers == old(sil.Matchers)
+
+// C11/C02/C12: loading a snapshot installs exactly the decoded silences whose matchers compile, each filed under
+// its id, listed in the version index and present in the matcher index - so that queries and garbage collection
+// (which walk the indices) see every silence that is stored.
+//@ func (*Silences).loadSnapshot
+//@   props C11 C02 C12
+//@   requires s != nil && s.metrics != nil && s.metrics.matcherCompileLoadSnapshotErrorsTotal != nil && s.logger != nil && metricsOK(s)
+//@   after call decodeState assume forall k string :: k in res0 ==> (len(res0[k].Silence.Comments) > 0 ==> res0[k].Silence.Comments[0] != nil)
+//@   ensures [error-installs-nothing] result != nil ==> s.st == old(s.st) && s.vi == old(s.vi) && s.mi == old(s.mi) && s.version == old(s.version)
+//@   ensures [stored-are-listed] result == nil ==> (forall k string :: k in s.st ==> inVi(s.vi, k))
+//@   ensures [stored-are-compiled] result == nil ==> (forall k string :: k in s.st ==> k in s.mi)
+//@   ensures [well-formed] result == nil ==> (forall k string :: k in s.st ==> s.st[k] != nil && s.st[k].Silence != nil && s.st[k].Silence.Id == k)
+//@   ensures [version-bumped] result == nil ==> s.version == old(s.version) + 1
+//@   loop 1 invariant fresh(vi) && fresh(mi) && fresh(st) && mi != st
+//@   loop 1 invariant forall k string :: k in st ==> pre(k in st)
+//@   loop 1 invariant forall k string :: k in st ==> st[k] != nil && st[k].Silence != nil && st[k].Silence.Id == k
+//@   loop 1 invariant forall k string :: k in visited && k in st ==> inVi(vi, k) && k in mi
+//@   loop 1 invariant forall k string :: k in st ==> fresh(st[k].Silence) && (len(st[k].Silence.Comments) > 0 ==> st[k].Silence.Comments[0] != nil)
+//@   assigns s.st, s.mi, s.vi, s.version
